@@ -163,8 +163,10 @@ def load_known(path: Optional[str] = None) -> List[Dict[str, Any]]:
     if not os.path.exists(path):
         return []
     with open(path) as fh:
-        data = json.load(fh)
-    return data.get("findings", [])
+        txt = fh.read()
+    if not txt.strip():
+        return []
+    return json.loads(txt).get("findings", [])
 
 
 def match_known(f: Finding, known: List[Dict[str, Any]]) -> Optional[Dict[str, Any]]:
